@@ -140,6 +140,13 @@ static inline std::string compare(const N& n, const ref::Value& r, const std::st
         auto exp = n.MemberBegin() + first;
         if (n.FindMember(StringView(key.data(), key.size())) != exp) return bad("FindMember(view) key " + vr::hex(key));
         if (n.FindMember(key.data(), key.size()) != exp) return bad("FindMember(ptr,len) key " + vr::hex(key));
+        {
+          // the same key as a slice of a longer buffer: the bytes after it are not NUL and must not matter
+          std::string probe = "\x7f" + key + "\x7f#";
+          if (n.FindMember(probe.data() + 1, key.size()) != exp) return bad("FindMember(ptr,len) key given as a slice of a longer buffer " + vr::hex(key));
+          if (n.FindMember(StringView(probe.data() + 1, key.size())) != exp) return bad("FindMember(view) key given as a slice of a longer buffer " + vr::hex(key));
+          if (!n.HasMember(StringView(probe.data() + 1, key.size()))) return bad("HasMember key given as a slice of a longer buffer");
+        }
         if (!n.HasMember(StringView(key.data(), key.size()))) return bad("HasMember");
         if (&n[StringView(key.data(), key.size())] != &exp->value) return bad("operator[](key)");
         if (n.AtPointer(StringView(key.data(), key.size())) != &exp->value) return bad("AtPointer(key)");
